@@ -132,11 +132,20 @@ impl fmt::Display for InjectedLoaderError {
 }
 impl std::error::Error for InjectedLoaderError {}
 
+/// Message of the `io::Error` (kind NotFound, the least favourable one) that `LeafLoader`
+/// returns for contents starting with "!io".
+pub const DECODE_IO_MSG: &str = "vh: decoding error reported as io::Error";
+
 pub fn describe_reason(r: &(dyn std::error::Error + 'static)) -> ErrClass {
     if let Some(e) = r.downcast_ref::<assets_manager::Error>() {
         return ErrClass::Nested(Box::new(describe_error(e)));
     }
     if let Some(e) = r.downcast_ref::<io::Error>() {
+        // a loader may report a decoding problem as an `io::Error` (`read_exact` on truncated
+        // bytes...): that is still a decoding error, not a failure to read the source
+        if e.get_ref().is_some_and(|inner| inner.to_string() == DECODE_IO_MSG) {
+            return ErrClass::Conversion;
+        }
         return if e.kind() == io::ErrorKind::NotFound {
             ErrClass::NotFound
         } else {
@@ -635,6 +644,9 @@ impl<const EX: u8, const D: u8, const H: bool> Loader<Leaf<EX, D, H>> for LeafLo
         };
         if content.first() == Some(&b'!') {
             scope.finish("err");
+            if content.starts_with(b"!io") {
+                return Err(Box::new(io::Error::new(io::ErrorKind::NotFound, DECODE_IO_MSG)));
+            }
             return Err(Box::new(DecodeError));
         }
         scope.finish("ok");
